@@ -47,8 +47,72 @@ def rules(model: Model, tier: str) -> List[RuleResult]:
     ac.ac7_no_inplace_on_apply_outputs(model, fc.backward, R7)
     _ts_gating(fc, T)
     _modes_layout(model, fc, T)
-    _hy = ac.hygiene_rules(model, ac.get_fncls(model, '_SolveIVP'), PROP, min_copies=5, min_opt=2)
-    return [R1, R2, R3, R4, R5, R6, R7, T, *_hy]
+    Yr = RuleResult(PROP, "C08-Y", "backward sweep re-anchors y to the stored forward values and adds the incoming gradient at the same index", min_instances=4)
+    _reanchoring(fc, Yr)
+    _hy = ac.hygiene_rules(model, ac.get_fncls(model, '_SolveIVP'), PROP, min_copies=5, min_opt=2, min_conv=1, min_idx=6)
+    return [R1, R2, R3, R4, R5, R6, R7, T, *_hy, Yr]
+
+
+def _reanchoring(fc, Y: RuleResult):
+    """backward sweep: at every requested time the y-slot of the augmented state is re-anchored to the STORED forward value yt[k]
+    and the incoming gradient grad_yt[k] is added to the adjoint slot, with one and the same running index k that moves by one per
+    segment.  (Integrating y backwards instead of re-anchoring is unstable for dynamics with decaying modes.)"""
+    bw = fc.backward
+    loops = [l for l in bw.node.body if isinstance(l, ast.For)]
+    if len(loops) != 1:
+        raise AnalysisError("C08-Y: _SolveIVP.backward no longer has a single sweep loop")
+    loop = loops[0]
+    defs = function_defs(bw.node)
+    # names of the saved forward output and the incoming gradient
+    gname = bw.params()[1]
+    yt_names = [k for k, ds in defs.items() if any(ast.unparse(d).startswith("saved_tensors[2]") or ast.unparse(d).endswith("saved_tensors[2]") for d in ds)]
+    if not yt_names:
+        raise AnalysisError("C08-Y: the saved forward trajectory (saved_tensors[2]) is not bound to a name in backward")
+    yt = yt_names[0]
+
+    def slot_assigns(body):
+        out = {}
+        for s in body:
+            if isinstance(s, ast.Assign) and isinstance(s.targets[0], ast.Subscript) and isinstance(s.targets[0].value, ast.Name) and s.targets[0].value.id == "states":
+                out[ast.unparse(s.targets[0].slice)] = s
+        return out
+    pre = slot_assigns(bw.node.body)
+    inl = slot_assigns(loop.body)
+    rebinding = [i for i, s in enumerate(loop.body) if isinstance(s, ast.Assign) and isinstance(s.targets[0], ast.Name) and s.targets[0].id == "states"]
+    # the slot holding y: the one initialised from yt before the loop
+    yslot = [k for k, s in pre.items() if isinstance(s.value, ast.Subscript) and ast.unparse(s.value.value) == yt]
+    gslot = [k for k, s in pre.items() if isinstance(s.value, ast.Subscript) and ast.unparse(s.value.value) == gname]
+    if len(yslot) != 1 or len(gslot) != 1:
+        raise AnalysisError("C08-Y: initialisation of the y / adjoint slots from %s / %s not found" % (yt, gname))
+    yslot, gslot = yslot[0], gslot[0]
+    idx0 = ast.unparse(pre[yslot].value.slice)
+    if ast.unparse(pre[gslot].value.slice) == idx0:
+        Y.ok(bw.fq, "sweep starts from states[%s] = %s[%s], states[%s] = %s[%s] (same index)" % (yslot, yt, idx0, gslot, gname, idx0))
+    else:
+        Y.bad(bw, pre[gslot], "the sweep must start from the forward value and the incoming gradient at the same (last) time index")
+    ys, gs = inl.get(yslot), inl.get(gslot)
+    ok_y = (ys is not None and isinstance(ys.value, ast.Subscript) and ast.unparse(ys.value.value) == yt and rebinding and loop.body.index(ys) > rebinding[-1])
+    if ok_y:
+        Y.ok(bw.fq, "after every segment the y slot is re-anchored to the stored forward value: `%s`" % norm_stmt(ys))
+    else:
+        Y.bad(bw, ys or loop, "after each backward segment the y slot must be reset to the stored forward value %s[k] (it is otherwise integrated backwards, "
+              "which amplifies every decaying mode of the dynamics)" % yt)
+    ok_g = False
+    if gs is not None and isinstance(gs.value, ast.BinOp) and isinstance(gs.value.op, ast.Add) and rebinding and loop.body.index(gs) > rebinding[-1]:
+        parts = [ast.unparse(gs.value.left), ast.unparse(gs.value.right)]
+        idx = ast.unparse(ys.value.slice) if ok_y else idx0
+        ok_g = sorted(parts) == sorted(["%s[%s]" % (gname, idx), "states[%s]" % gslot])
+    if ok_g:
+        Y.ok(bw.fq, "the incoming gradient at the same index is added to the propagated adjoint: `%s`" % norm_stmt(gs))
+    else:
+        Y.bad(bw, gs or loop, "the adjoint slot must become grad_yt[k] + (propagated adjoint) with the same index k used for the forward value")
+    # the running index moves by exactly one per iteration, before the re-anchoring
+    idxname = idx0
+    steps = [i for i, s in enumerate(loop.body) if isinstance(s, ast.AugAssign) and isinstance(s.target, ast.Name) and s.target.id == idxname]
+    if len(steps) == 1 and isinstance(loop.body[steps[0]].op, ast.Sub) and ast.unparse(loop.body[steps[0]].value) == "1" and (not ok_y or steps[0] < loop.body.index(ys)):
+        Y.ok(bw.fq, "the running index %s moves back by one per segment, before the re-anchoring" % idxname)
+    else:
+        Y.bad(bw, loop, "the running time index must be decremented exactly once per segment before the state is re-anchored")
 
 
 def _ts_gating(fc, T: RuleResult):
